@@ -323,9 +323,6 @@ def sem_validate(ctx, acc, name, trace, kinds, timeout=3000, consts=''):
     for r in recs[:2]:
         samples.append({'tree': r['t'], 'compile': r['c']['st'],
                         'program': ctx.t.text_of(r['c']['renders'][0].get('text', []))[:400] if r['c']['st'] == 'ok' else None})
-    if ncompiled > 0 and nfiles == 0 and 'Static = TRUE' not in consts:
-        # vacuity guard: programs were compiled but not one of them was executed on a file
-        raise ctx.t.ToolError('stage %s: %d programs compiled, none executed (all held to be of unspecified meaning?)' % (name, ncompiled))
     nstatic = sum(1 for v in verdicts if v.get('nfiles', 0) == 0 and recs[v['idx'] - 1]['c']['st'] == 'ok')
     acc.add_stage(name, st, len(recs), samples, {'programs_compiled': ncompiled, 'file_evaluations': nfiles, 'programs_checked_statically_only': nstatic})
     acc.programs = getattr(acc, 'programs', 0) + ncompiled
@@ -339,15 +336,19 @@ def sem_validate(ctx, acc, name, trace, kinds, timeout=3000, consts=''):
             f = {'kinds': v['kinds'], 'tree': r['t'], 'o': r['o'], 'info': v.get('info'), 'file': v.get('file'), 'stage': name,
                  'compile': r['c']['st'], 'text': ctx.t.text_of(r['c']['renders'][0].get('text', [])) if r['c']['st'] == 'ok' else ctx.t.text_of(r['c'].get('msg', []))}
             acc.failures.extend(keep([f], kinds))
+            stage_failed = True
+    if ncompiled > 0 and nfiles == 0 and 'Static = TRUE' not in consts and not any(v['kinds'] for v in verdicts):
+        # vacuity guard: programs were compiled, nothing was found wrong with them, and not one was executed on a file
+        raise ctx.t.ToolError('stage %s: %d programs compiled, none executed (all held to be of unspecified meaning?)' % (name, ncompiled))
     return verdicts
 
 
-def gt_sem(ctx, acc, name, family, maxsize, kinds, extra_rec=(), consts=''):
+def gt_sem(ctx, acc, name, family, maxsize, kinds, extra_rec=(), consts='', emit=('EmitTree',)):
     """TLC generates trees, the real code compiles them, TLC validates the programs"""
     binp = ctx.t.build('dev')
     import subprocess
     trace = '%s/%s.ndjson' % (ctx.work, name)
-    cmd = ctx.t.tlc_cmd(name + '_gen', 'MC_Trees', cfg(['Family = "%s"' % family, 'MaxSize = %d' % maxsize], ['EmitTree']), workers=4)
+    cmd = ctx.t.tlc_cmd(name + '_gen', 'MC_Trees', cfg(['Family = "%s"' % family, 'MaxSize = %d' % maxsize], list(emit)), workers=4)
     tl = subprocess.Popen(cmd, cwd=ctx.t.SPEC, stdout=subprocess.PIPE, stderr=subprocess.STDOUT)
     with open(trace, 'w') as f:
         rp = subprocess.run([binp, 'compile-trees'] + list(extra_rec), stdin=tl.stdout, stdout=f, stderr=subprocess.PIPE, text=True, timeout=1800)
@@ -436,10 +437,13 @@ def c12(ctx):
                                      'text': ctx.t.text_of(r['c']['renders'][0].get('text', []))})
 
     omitted('c12unsup', gt_sem(ctx, acc, 'c12unsup', 'unsup', 1, REFUSE_KINDS, consts='CONSTANT MaxFiles = 3\nCONSTANT Static = FALSE\n'))
+    # the constructs as the user writes them: the real parser reads the text, the program (or the refusal) is judged
+    # against the tree the SPECIFICATION gives for the text
+    omitted('c12texts', gt_sem(ctx, acc, 'c12texts', 'texts', 1, REFUSE_KINDS, consts='CONSTANT MaxFiles = 3\nCONSTANT Static = FALSE\n', emit=('EmitTree', 'EmitTexts')))
     gt_sem(ctx, acc, 'c12compl', 'complement', 1, REFUSE_KINDS, consts='CONSTANT MaxFiles = 3\nCONSTANT Static = FALSE\n')
     gt_sem(ctx, acc, 'c12single', 'single', 1, REFUSE_KINDS, consts='CONSTANT MaxFiles = 3\nCONSTANT Static = FALSE\n')
     omitted('c12rand', t_sem(ctx, acc, 'c12rand', ['--count', str(pick(ctx, 1500, 30000)), '--seed', str(ctx.seed), '--size', '9', '--unsupported', '--no-direct'], REFUSE_KINDS, consts='CONSTANT MaxFiles = 3\nCONSTANT Static = FALSE\n'))
-    return tv_result(acc, 'every unsupported construct (13 tests, 3 actions, 7 format directives, the positional option, \\c) alone and in 6 positions (under not, dead AND/OR branches, beside actions); every supported primary alone (must compile); seeded random trees with 0..3 unsupported constructs; expected from the supported/unsupported partition of Vocab.tla/Format.tla; an accepted program is read and must have two top-level forms; a format with \\c, which may be refused or implemented, must when accepted stop printing there', ['the error must contain the variant name or the keyword of one offending construct'])
+    return tv_result(acc, 'every unsupported construct (13 tests, 3 actions, 7 format directives, the positional option, \\c) alone and in 6 positions (under not, dead AND/OR branches, beside actions); every supported primary alone (must compile); every keyword of the vocabulary and 26 format strings (with and without %, with \\c, with each unsupported directive) WRITTEN AS TEXT in 6 positions, read by the real parser and judged against the tree the specification gives for the text; seeded random trees with 0..3 unsupported constructs; expected from the supported/unsupported partition of Vocab.tla/Format.tla; an accepted program is read and must have two top-level forms; a format with \\c, which may be refused or implemented, must when accepted stop printing there', ['the error must contain the variant name or the keyword of one offending construct'])
 
 def c07(ctx):
     acc = Acc()
@@ -709,9 +713,15 @@ def c15(ctx):
 
 def c20(ctx):
     acc = Acc()
-    trace = record_procs(ctx, 'c20api', ['--count', str(pick(ctx, 25, 400)), '--seed', str(ctx.seed), '--paths', 'hostile', '--no-failprobe'], 1)
+    # the clock moves on (1.1 s, three times per process) between the first and the second rendering of a compiled
+    # expression that holds a time test: what is rendered must not depend on WHEN it is rendered
+    os.environ['FPVERIF_RENDER_GAP_MS'] = '1100'
+    try:
+        trace = record_procs(ctx, 'c20api', ['--count', str(pick(ctx, 25, 400)), '--seed', str(ctx.seed), '--paths', 'hostile', '--no-failprobe'], 1)
+    finally:
+        del os.environ['FPVERIF_RENDER_GAP_MS']
     api_validate(ctx, acc, 'c20api', trace, PURE_KINDS, timeout=6000)
-    cov = acc.coverage(False, 'seeded compiled expressions x 8 renderings for device paths {/, /dev/mdt0, with a blank, with a double quote, with a backslash, trailing backslash, non-ASCII and ~;(, / again} interleaved with destination-table queries, each compiled 3 times; checked by Api.tla RenderKinds: equal skeletons, string literals equal except one position, that literal is the first argument of the scan call and decodes to the path, same path => identical text, table queries never change',
+    cov = acc.coverage(False, 'seeded compiled expressions x 8 renderings for device paths {/, /dev/mdt0, with a blank, with a double quote, with a backslash, trailing backslash, non-ASCII and ~;(, / again} interleaved with destination-table queries, each compiled 3 times, the clock advancing between two renderings of expressions with time tests; user words that look like a placeholder or like the delimiters around the device slot; checked by Api.tla RenderKinds: equal skeletons, string literals equal except one position, that literal is the first argument of the scan call and decodes to the path, same path => identical text, table queries never change',
                        {'evaluations': acc.traces, 'distinct_nontrivial': acc.distinct})
     return {'level': 'model_checking', 'coverage': cov, 'assumptions': ASSUME_COMMON + ["Guile's lexical syntax as transcribed in SchemeRead.tla"], 'failures': acc.failures}
 
